@@ -794,6 +794,28 @@ struct Engine {
 		}
 
 		// canonical key of the quiescent state (DESIGN.md 3.3)
+		// every answer the public const interface gives (C10: a copy answers like its original)
+		std::string answers() const {
+			std::string k;
+			if (!fsm) return "<none>";
+			for (int s = 0; s < N; ++s) { k += fsm->isActive((hfsm2::StateID) s) ? 'A' : '.'; k += fsm->isResumable((hfsm2::StateID) s) ? 'r' : '.'; }
+#if VT_HISTORY
+			const auto& pt = fsm->previousTransitions();
+			k += "|pt";
+			for (unsigned i = 0; i < pt.count(); ++i) k += str((int) pt[i].type) + ":" + str((int) pt[i].destination) + ":" + str((int) pt[i].origin) + ",";
+			k += "|lt";
+			if (machineActive())
+				for (int s = 0; s < N; ++s) { const auto* t = fsm->lastTransitionTo((hfsm2::StateID) s); k += t ? str((int) (t - &pt[0])) : std::string("-"); k += ','; }
+#endif
+#if VT_STRUCT
+			k += "|st";
+			const auto& st = fsm->structure();
+			for (unsigned i = 0; i < st.count(); ++i) k += st[i].isActive ? '1' : '0';
+			const auto& ah = fsm->activityHistory();
+			for (unsigned i = 0; i < ah.count(); ++i) k += str((int) ah[i]) + ",";
+#endif
+			return k;
+		}
 		std::string key() const {
 			std::string k;
 			if (!fsm) return "<none>";
